@@ -1,3 +1,248 @@
-/-! Property C15 — theorems (statements live here, helper lemmas in Faithful/Lib) -/
+import Faithful.Lib.AccumCar
+import Faithful.Lib.AccumQueue
+import Faithful.Lib.AccumQueueProofs
+
+/-!
+# C15 — block-by-block CAR traversal delivers each object once with its true offset
+
+Model: `Accum.run` (`Faithful/Lib/AccumCar.lean`) is `/repo/accum/block.go: ObjectAccumulator.Run` + `flush` as a fold
+over the sections of a CAR; `Accum.exec` (`Faithful/Lib/AccumQueue.lean`) is the same code as two goroutines stepping
+through the channel / pool / WaitGroup under an arbitrary schedule, with explicit backing arrays.  The driver
+(`Driver/C15.lean`) prints `run` for every `run` op line and also replays `exec` under a schedule drawn from the op's
+seed; the harness compares with what the real callbacks received.
+
+Assumptions (stated in props/C15.json): the CAR header is the canonical dag-cbor go-car writes (the real code derives
+the first offset from the *re-encoded* header; compared on every `car` op); CIDs are the 36-byte form the writers
+produce; every node has at least the two bytes `data[1]` needs (otherwise the real code panics and so says the driver);
+the sync primitives are linearizable and order memory as the Go memory model says (the model's atomic steps are exactly
+the accesses to them).
+-/
 namespace C15
+open Accum
+
+/-! ## the parsed structure is the file -/
+
+/-- what the driver parses out of the op line is a decomposition of those very bytes, every section being
+    `uvarint(len) ‖ cid(36) ‖ data` -/
+theorem parse_faithful (b : Bytes) (c : Car) (h : parse b = some c) : c.bytes = b ∧ ∀ s ∈ c.secs, s.wf :=
+  parse_sound b c h
+
+/-! ## grouping -/
+
+theorem flatMap_filter_nonEmpty (l : List Group) :
+    (l.filter Group.nonEmpty).flatMap Group.members = l.flatMap Group.members := by
+  induction l with
+  | nil => rfl
+  | cons g l ih =>
+    by_cases h : g.nonEmpty = true
+    · simp [List.filter_cons, h, ih]
+    · have hm : g.members = [] := by
+        cases g with
+        | mk p ch =>
+          cases p <;> cases ch <;> simp_all [Group.nonEmpty, Group.members]
+      simp [List.filter_cons, h, ih, hm]
+
+theorem filterMap_filter_nonEmpty (l : List Group) :
+    (l.filter Group.nonEmpty).filterMap Group.parent = l.filterMap Group.parent := by
+  induction l with
+  | nil => rfl
+  | cons g l ih =>
+    by_cases h : g.nonEmpty = true
+    · rw [List.filter_cons_of_pos h, List.filterMap_cons, List.filterMap_cons, ih]
+    · have hm : g.parent = none := by
+        cases g with
+        | mk p ch => cases p <;> simp_all [Group.nonEmpty]
+      simp [List.filter_cons, h, ih, hm]
+
+/-- **Every object once, in file order, grouped under its block.**  The objects handed to the callbacks, group after
+    group (children first, then their parent), are exactly the sections after the skipped ones that are of the flush
+    kind or not ignored — same order, same multiplicity; the parents are exactly the flush-kind sections, in order, each
+    once; a parent is always of the flush kind and children never are (so a group ends at the first block that follows
+    its children), and no ignored kind is ever delivered as a child. -/
+theorem groups_partition (c : Car) (ig : List UInt8) (k : UInt8) (skip : Nat) :
+    (run c ig k skip).flatMap Group.members = (c.objs.drop skip).filter (keep ig k) ∧
+    (run c ig k skip).filterMap Group.parent = (c.objs.drop skip).filter (fun o => o.kind == k) ∧
+    ∀ g ∈ run c ig k skip,
+      (∀ p, g.parent = some p → p.kind = k) ∧ (∀ o ∈ g.children, o.kind ≠ k ∧ ignored ig o.kind = false) := by
+  refine ⟨?_, ?_, ?_⟩
+  · unfold run
+    rw [flatMap_filter_nonEmpty]
+    simpa [sends, Car.objs] using go_members ig k c.secs c.header.length skip []
+  · unfold run
+    rw [filterMap_filter_nonEmpty]
+    exact go_parents ig k c.secs c.header.length skip []
+  · intro g hg
+    have hg' : g ∈ sends c ig k skip := (List.mem_filter.mp hg).1
+    exact go_kinds ig k c.secs c.header.length skip [] (by intro o ho; cases ho) g hg'
+
+/-- non-vacuity: two blocks with children of three kinds, an ignored kind, trailing objects -/
+def exCar : Car :=
+  { header := [2, 0xa0, 0],
+    secs := [ ⟨[4], [1], [0x80, 0, 7]⟩,      -- transaction
+              ⟨[3], [2], [0x80, 1]⟩,         -- entry (ignored below)
+              ⟨[3], [3], [0x80, 2]⟩,         -- block
+              ⟨[3], [4], [0x80, 2]⟩,         -- block without children
+              ⟨[5], [5], [0x80, 6, 1, 2]⟩,   -- dataframe after the last block
+              ⟨[3], [6], [0x80, 1]⟩ ] }      -- entry after the last block (ignored)
+
+example : run exCar [1] 2 =
+    [ ⟨some ⟨[3], 12, 4, [0x80, 2]⟩, [⟨[1], 3, 5, [0x80, 0, 7]⟩]⟩,
+      ⟨some ⟨[4], 16, 4, [0x80, 2]⟩, []⟩,
+      ⟨none, [⟨[5], 20, 6, [0x80, 6, 1, 2]⟩]⟩ ] := by decide
+
+example : ((run exCar [1] 2).flatMap Group.members).length = 4 ∧ (exCar.objs.filter (keep [1] 2)).length = 4 := by decide
+
+/-! ## offsets -/
+
+/-- **Every delivered object carries the offset and length at which it really sits in the file**: it is section `i`
+    for some `i ≥ skip`, its offset is the header length plus the lengths of ALL sections before it (ignored and skipped
+    ones included), and the file bytes at `[offset, offset + sectionLength)` are exactly that section
+    (`prefix ‖ cid ‖ data` with the delivered cid and data). -/
+theorem offsets_true (c : Car) (ig : List UInt8) (k : UInt8) (skip : Nat) :
+    ∀ g ∈ run c ig k skip, ∀ o ∈ g.members,
+      ∃ i, ∃ h : i < c.secs.length, skip ≤ i ∧
+        o.cid = c.secs[i].cid ∧ o.data = c.secs[i].data ∧ o.secLen = c.secs[i].secLen ∧
+        o.offset = c.header.length + ((c.secs.take i).map Sec.secLen).sum ∧
+        B.slice c.bytes o.offset o.secLen = c.secs[i].pre ++ (o.cid ++ o.data) := by
+  intro g hg o ho
+  have hmem : o ∈ (c.objs.drop skip).filter (keep ig k) := by
+    rw [← (groups_partition c ig k skip).1]
+    exact List.mem_flatMap.mpr ⟨g, hg, ho⟩
+  have hmem2 : o ∈ c.objs.drop skip := (List.mem_filter.mp hmem).1
+  obtain ⟨j, hj, hjo⟩ := List.getElem_of_mem hmem2
+  rw [List.getElem_drop] at hjo
+  have hlen : c.objs.length = c.secs.length := by unfold Car.objs; exact objsFrom_length _ _
+  have hi : skip + j < c.secs.length := by
+    have : j < (c.objs.drop skip).length := hj
+    rw [List.length_drop] at this
+    omega
+  have hobj := c.objs_getElem (skip + j) hi
+  rw [hjo] at hobj
+  refine ⟨skip + j, hi, by omega, ?_⟩
+  subst hobj
+  refine ⟨rfl, rfl, rfl, rfl, ?_⟩
+  have := c.slice_at (skip + j) hi
+  simpa [Sec.raw] using this
+
+/-- the same, for the bytes of a file the parser accepted -/
+theorem offsets_true_file (b : Bytes) (c : Car) (hp : parse b = some c) (ig : List UInt8) (k : UInt8) (skip : Nat) :
+    ∀ g ∈ run c ig k skip, ∀ o ∈ g.members,
+      ∃ pre, B.slice b o.offset o.secLen = pre ++ (o.cid ++ o.data) ∧
+        Varint.get pre 10 = some (o.cid.length + o.data.length, pre.length) ∧ o.cid.length = 36 := by
+  intro g hg o ho
+  obtain ⟨hb, hwf⟩ := parse_sound b c hp
+  obtain ⟨i, hi, _, hc, hd, _, _, hs⟩ := offsets_true c ig k skip g hg o ho
+  have := hwf _ (List.getElem_mem hi)
+  refine ⟨c.secs[i].pre, by rw [← hb]; exact hs, ?_, ?_⟩
+  · rw [hc, hd]; exact this.1
+  · rw [hc]; exact this.2
+
+example : ∀ g ∈ run exCar [1] 2, ∀ o ∈ g.members, B.slice exCar.bytes o.offset o.secLen ≠ [] := by decide
+
+/-! ## the final group -/
+
+/-- **Objects after the last block are delivered as one final group with `parent = nil`** (and only then is a group
+    without parent delivered; it is the last callback; nothing is delivered for an empty tail). -/
+theorem trailing_group (c : Car) (ig : List UInt8) (k : UInt8) (skip : Nat) :
+    ∃ blocks tail pre post,
+      run c ig k skip = blocks ++ (if tail = [] then [] else [⟨none, tail⟩]) ∧
+      (∀ g ∈ blocks, g.parent.isSome = true) ∧
+      c.objs.drop skip = pre ++ post ∧
+      (∀ o ∈ post, o.kind ≠ k) ∧ (pre = [] ∨ ∃ pre0 b, pre = pre0 ++ [b] ∧ b.kind = k) ∧
+      tail = post.filter (fun o => !ignored ig o.kind) ∧
+      blocks.flatMap Group.members = pre.filter (keep ig k) := by
+  obtain ⟨bl, tl, pre, post, h1, h2, h3, h4, h5, h6, h7⟩ := go_shape ig k c.secs c.header.length skip []
+  refine ⟨bl, tl, pre, post, ?_, h2, h3, h4, h5, ?_, ?_⟩
+  · unfold run sends
+    rw [h1, List.filter_append]
+    have hb : bl.filter Group.nonEmpty = bl := by
+      apply List.filter_eq_self.mpr
+      intro g hg
+      simp [Group.nonEmpty, h2 g hg]
+    rw [hb]
+    congr 1
+    by_cases ht : tl = []
+    · simp [ht, Group.nonEmpty]
+    · simp [ht, Group.nonEmpty, List.isEmpty_iff]
+  · simpa using h6
+  · by_cases hp : pre = [] <;> simpa [hp] using h7
+
+example : ∃ tail, tail ≠ [] ∧ (run exCar [1] 2).getLast? = some ⟨none, tail⟩ :=
+  ⟨[⟨[5], 20, 6, [0x80, 6, 1, 2]⟩], by decide, by decide⟩
+
+/-! ## the two goroutines -/
+
+/-- **For every schedule of reader steps, flusher steps and pool clean-ups**, from a start with any number of stale
+    buffers in the global pool, with any buffer sizes, with or without the callback appending into the delivered slice
+    (as `cmd-car-split.go` does):
+    * the callbacks made so far are a prefix of `run` — in order, none invented, none twice;
+    * when both goroutines have returned the callbacks made are exactly `run`;
+    * the reading goroutine never wrote into an array after sending it, and every `(parent, children)` ever handed to a
+      callback still reads, at any later time, exactly as it did when the callback was invoked. -/
+theorem fifo_any_speed (cfg : Cfg) (c : Car) (ig : List UInt8) (k : UInt8) (skip npool : Nat) (σ : List Ev) :
+    (exec cfg ig k (init c skip npool) σ).observed <+: run c ig k skip ∧
+    ((exec cfg ig k (init c skip npool) σ).finished = true →
+      (exec cfg ig k (init c skip npool) σ).observed = run c ig k skip) ∧
+    (exec cfg ig k (init c skip npool) σ).bad = false ∧
+    (exec cfg ig k (init c skip npool) σ).reread = (exec cfg ig k (init c skip npool) σ).seen := by
+  have inv := inv_exec cfg ig k _ _ σ (inv_init c ig k skip npool)
+  refine ⟨?_, ?_, inv.notBad, inv.stable⟩
+  · exact List.IsPrefix.filter _ (seen_prefix inv)
+  · intro hf
+    unfold St.observed run
+    rw [seen_all_of_finished inv hf]
+
+/-- the number of effective steps of a whole run is at most `9 · sections + 12` -/
+theorem mu_init (c : Car) (skip npool : Nat) : mu (init c skip npool) = 9 * c.secs.length + 12 := by
+  simp [mu, init, prodM, toSend, consPc]; omega
+
+theorem mu_exec_le (cfg : Cfg) (ig : List UInt8) (k : UInt8) (s : St) (σ : List Ev) : mu (exec cfg ig k s σ) ≤ mu s := by
+  induction σ generalizing s with
+  | nil => exact Nat.le_refl _
+  | cons e σ ih => exact Nat.le_trans (ih _) (step_mu_le cfg ig k s e)
+
+/-- **No deadlock, no starvation needed beyond fairness**: whatever happened so far (`σ`), every continuation `τ`
+    that schedules each of the two goroutines at least once per round for `9 · sections + 12` rounds (in any order, any
+    number of steps each, any speed ratio) ends with both goroutines returned and exactly `run` delivered.
+    The channel only needs room for one element. -/
+theorem fifo_fair_completes (cfg : Cfg) (hq : 1 ≤ cfg.qcap) (c : Car) (ig : List UInt8) (k : UInt8) (skip npool : Nat)
+    (σ τ : List Ev) (hfair : 9 * c.secs.length + 12 ≤ rounds false false τ) :
+    (exec cfg ig k (init c skip npool) (σ ++ τ)).finished = true ∧
+    (exec cfg ig k (init c skip npool) (σ ++ τ)).observed = run c ig k skip := by
+  have inv := inv_exec cfg ig k _ _ σ (inv_init c ig k skip npool)
+  have hmu : mu (exec cfg ig k (init c skip npool) σ) ≤ rounds false false τ := by
+    have := mu_exec_le cfg ig k (init c skip npool) σ
+    rw [mu_init] at this
+    omega
+  have hfin : (exec cfg ig k (init c skip npool) (σ ++ τ)).finished = true := by
+    rw [exec_append]
+    exact fair_core cfg hq ig k _ τ _ false false _ inv (Or.inl ⟨Nat.le_refl _, by simp, by simp⟩) hmu
+  exact ⟨hfin, (fifo_any_speed cfg c ig k skip npool (σ ++ τ)).2.1 hfin⟩
+
+/-- while the run is not over one of the two goroutines can always take an effective step, and effective steps are
+    bounded: the reader blocked on a full channel or on the WaitGroup is always released by the flusher -/
+theorem fifo_no_deadlock (cfg : Cfg) (hq : 1 ≤ cfg.qcap) (c : Car) (ig : List UInt8) (k : UInt8) (skip npool : Nat)
+    (σ : List Ev) (hf : (exec cfg ig k (init c skip npool) σ).finished = false) :
+    (∀ n, mu (exec cfg ig k (init c skip npool) (σ ++ [.p n])) < mu (exec cfg ig k (init c skip npool) σ)) ∨
+    (∀ a, mu (exec cfg ig k (init c skip npool) (σ ++ [.c a])) < mu (exec cfg ig k (init c skip npool) σ)) := by
+  have inv := inv_exec cfg ig k _ _ σ (inv_init c ig k skip npool)
+  rcases not_stuck cfg hq inv hf with h | h
+  · left; intro n; rw [exec_append]; exact stepP_mu cfg ig k n _ h
+  · right; intro a; rw [exec_append]; exact stepC_mu a _ h
+
+/-! non-vacuity: a tiny channel (capacity 1), a preallocation of 1 (so `append` reallocates), two stale pooled buffers,
+    the callback appending in place, the pool emptied in the middle: the run completes and delivers `run`. -/
+def exCfg : Cfg := { cap0 := 1, qcap := 1, grow := fun n => 2 * n + 1 }
+
+def exSched : List Ev :=
+  [.p 0, .p 0, .p 0, .p 0, .p 0, .p 0, .p 1, .p 0, .p 0, .c true, .gc, .p 0, .p 0, .p 0, .p 0, .p 5, .p 0] ++
+  roundRobin 40
+
+example : (exec exCfg [1] 2 (init exCar 0 2) exSched).finished = true := by decide +kernel
+example : (exec exCfg [1] 2 (init exCar 0 2) exSched).observed = run exCar [1] 2 := by decide +kernel
+example : 9 * exCar.secs.length + 12 ≤ rounds false false (roundRobin 66) := by decide
+/-- a schedule in which the reader runs alone gets stuck on the full channel: not finished, a strict prefix delivered -/
+example : (exec exCfg [1] 2 (init exCar 0 0) (List.replicate 50 (.p 0))).finished = false ∧
+    (exec exCfg [1] 2 (init exCar 0 0) (List.replicate 50 (.p 0))).observed = [] := by decide +kernel
+
 end C15
